@@ -35,6 +35,8 @@ def run(chk):
         'preserved. R4: tag values by provenance (Vulnerable <- pbn_format(), Deal <- to_pbn(dealer), Dealer <- str(dealer), Board <- '
         'str(board_num), passed-out arms "" / "Pass" / "" under is_passed_out()). R5: the `[Tag "value"]` lines produced by '
         'write_tag_pair for all 15 tags and values over the property\'s alphabet are read back verbatim by parse_board (folded).')
+    from .pbnfile import writer_rule
+    writer_rule(chk, 'C18.R6')
     S = Summarizer(repo, 'C18')
     wm = repo.cls('PbnWriter', 'C18').module
     w_wbr, q_wbr = loc(repo, 'PbnWriter', 'write_board_result', 'C18.R1')
